@@ -20,10 +20,21 @@
 //! The controller stays inside the regime of the statement: it calls `cont` once per received
 //! Breakpoint event, and calls `run` again only when it has received every delivered event
 //! (stopped at a breakpoint with no `cont` outstanding, or after the final event).
-//! A re-run while a `cont` is outstanding is NOT exercised: there the old parser may deliver
-//! one more event into the old channel after the controller's last look, the statement's premise
-//! ("has received every delivered event") is not under the controller's control, and the
-//! documented CLI never does it (it always receives after `cont`).
+//! A re-run while a `cont` is outstanding is NOT exercised in general: there the old parser may
+//! deliver one more event into the old channel after the controller's last look, the statement's
+//! premise ("has received every delivered event") is not under the controller's control, and the
+//! documented CLI never does it (it always receives after `cont`). The one exception are the
+//! SLOW-PARSE histories (`build_slow`): there the parser needs hundreds of milliseconds of pure
+//! `"a"*` matching to reach its next rule entry, so a `run` issued right after `cont` provably
+//! comes before anything further is delivered (`Op::RunBusy`, which still looks once more).
+//! Those histories (and their variant that re-runs while parked in front of the long stretch)
+//! check that `run` terminates a previous session that is busy inside one long rule: when `run`
+//! has returned, the old thread's `th_exit` is in the log and the old channel carries no
+//! Breakpoint.
+//!
+//! While the parse is running the controller otherwise only issues OUTCOME-NEUTRAL breakpoint
+//! commands (`Op::Noise`: list, add and delete of a name that is no rule), which contend for the
+//! breakpoint lock with the listener but cannot change the expected sequence.
 //!
 //! Hangs are judged from the log, not from the clock: see `classify_hang`.
 
@@ -64,7 +75,22 @@ enum Op {
     Pause(u64),
     /// after the final event: wait until the parser thread's `th_exit` is in the log
     WaitExit,
+    /// While an event is owed (after `run` / `cont`, before the matching `recv`): `n` rounds of
+    /// outcome-neutral breakpoint commands in a tight loop - `list_breakpoints()`,
+    /// `add_breakpoint(NEVER_A_RULE)`, `delete_breakpoint(NEVER_A_RULE)` - i.e. the controller
+    /// takes the breakpoint lock again and again WHILE THE PARSE IS RUNNING. The set of rules
+    /// the parse can enter is unchanged by construction, so the expected event sequence is too.
+    Noise(u64),
+    /// `run(rule)` right after a `cont`, without a `recv` in between. Only used by the slow-parse
+    /// histories, where the parser needs hundreds of milliseconds to reach its next rule entry,
+    /// so nothing can have been delivered since the last received event and the statement's
+    /// premise holds. The executor still looks (`try_recv`) first: an event found there is
+    /// received normally and the op degrades to an ordinary re-run.
+    RunBusy(String),
 }
+
+/// A name no grammar of the workload defines and no parse enters.
+const NEVER_A_RULE: &str = "__never_a_rule__";
 
 impl Op {
     fn to_json(&self) -> Value {
@@ -79,6 +105,8 @@ impl Op {
             Op::Probe(u) => json!({"op":"probe","us":u}),
             Op::Pause(u) => json!({"op":"pause","us":u}),
             Op::WaitExit => json!({"op":"wait_exit"}),
+            Op::Noise(n) => json!({"op":"noise","n":n}),
+            Op::RunBusy(r) => json!({"op":"run_while_busy","rule":r}),
         }
     }
     fn from_json(v: &Value, default_rule: &str) -> Option<Op> {
@@ -94,6 +122,8 @@ impl Op {
             "probe" => Op::Probe(v["us"].as_u64().unwrap_or(0)),
             "pause" => Op::Pause(v["us"].as_u64().unwrap_or(0)),
             "wait_exit" => Op::WaitExit,
+            "noise" => Op::Noise(v["n"].as_u64().unwrap_or(100)),
+            "run_while_busy" => Op::RunBusy(rule()),
             _ => return None,
         })
     }
@@ -107,15 +137,43 @@ struct Case {
     ops: Vec<Op>,
     delay_seed: u64,
     origin: String,
+    /// After a re-run has returned while the superseded parser thread has NOT logged `th_exit`:
+    /// how long the old receiver is watched (until it disconnects) for what that thread still
+    /// delivers. Never waited for on a tree where `run` joins the previous thread.
+    old_watch_ms: u64,
+    /// `{"prefix","repeat","times","suffix"}`: how `input` was built, for the multi-megabyte
+    /// inputs of the slow-parse histories (written to witnesses instead of the text itself).
+    /// Such a case is a fixed, known-terminating one: the reference interpreter is not consulted.
+    input_spec: Option<Value>,
+}
+
+fn expand_input_spec(v: &Value) -> Option<String> {
+    let times = v["times"].as_u64()? as usize;
+    if times > 200_000_000 {
+        return None;
+    }
+    let mut s = String::with_capacity(times + 16);
+    s.push_str(v["prefix"].as_str().unwrap_or(""));
+    let r = v["repeat"].as_str()?;
+    for _ in 0..times {
+        s.push_str(r);
+    }
+    s.push_str(v["suffix"].as_str().unwrap_or(""));
+    Some(s)
 }
 
 impl Case {
     fn to_json(&self) -> Value {
-        json!({
-            "grammar": self.grammar, "rule": self.rule, "input": self.input,
+        let mut v = json!({
+            "grammar": self.grammar, "rule": self.rule,
             "history": self.ops.iter().map(|o| o.to_json()).collect::<Vec<_>>(),
-            "delay_seed": self.delay_seed, "origin": self.origin,
-        })
+            "delay_seed": self.delay_seed, "origin": self.origin, "old_channel_watch_ms": self.old_watch_ms,
+        });
+        match &self.input_spec {
+            Some(spec) => v["input_spec"] = spec.clone(),
+            None => v["input"] = json!(self.input),
+        }
+        v
     }
     fn hash(&self) -> u64 {
         let h = serde_json::to_string(&self.ops.iter().map(|o| o.to_json()).collect::<Vec<_>>()).unwrap();
@@ -162,8 +220,22 @@ fn ev_str(e: &DebuggerEvent) -> String {
     match e {
         DebuggerEvent::Breakpoint(r, p) => format!("bp:{r}@{p}"),
         DebuggerEvent::Eof => "eof".to_string(),
-        DebuggerEvent::Error(m) => format!("error:{m}"),
+        DebuggerEvent::Error(m) => format!("error:{}", abbrev(m)),
     }
+}
+
+/// Error texts quote the whole input line; with the multi-megabyte inputs of the slow-parse
+/// cases that must not go into logs and witnesses. Long texts are compared by (prefix, length,
+/// FNV-1a hash of the complete text), on both sides of the oracle.
+fn abbrev(m: &str) -> String {
+    if m.len() <= 600 {
+        return m.to_string();
+    }
+    let mut cut = 200;
+    while !m.is_char_boundary(cut) {
+        cut -= 1;
+    }
+    format!("{}...[{} bytes, fnv1a {:016x}]", &m[..cut], m.len(), hash_bytes(&[m.as_bytes()]))
 }
 
 /// Plain listener-VM parse: the listener records every (rule, pos) and never stops the parse.
@@ -182,7 +254,7 @@ fn plain_trace(opt: &[OptimizedRule], rule: &str, input: &str) -> Result<Plain, 
     );
     let fin = catch_unwind(AssertUnwindSafe(|| match vm.parse(rule, input) {
         Ok(_) => "eof".to_string(),
-        Err(e) => format!("error:{e}"),
+        Err(e) => format!("error:{}", abbrev(&e.to_string())),
     }))
     .map_err(|p| vmon::pestrun::panic_message(&p))?;
     let entries = rec.lock().unwrap_or_else(|e| e.into_inner()).clone();
@@ -347,7 +419,12 @@ fn push_edit(ops: &mut Vec<Op>, m: &mut Model, op: Op) {
     ops.push(op);
 }
 
-fn gen_history(rng: &mut Rng, prep: &Prepared, plains: &HashMap<String, Plain>, start: &str) -> Vec<Op> {
+/// `noisy`: after (almost) every `run` / `cont` the controller issues a block of outcome-neutral
+/// breakpoint commands while the parser is on its way to the next stop; such histories prefer
+/// large breakpoint sets, so that many stops (each a chance for the lock to be contended exactly
+/// when a breakpoint rule is entered) follow each other.
+fn gen_history(rng: &mut Rng, prep: &Prepared, plains: &HashMap<String, Plain>, start: &str, noisy: bool) -> Vec<Op> {
+    const NOISE: &[u64] = &[100, 300, 1000, 2000];
     const PAUSES: &[u64] = &[0, 10, 50, 200, 1000];
     const PROBES: &[u64] = &[0, 20, 100, 500, 2000];
     let mut ops: Vec<Op> = vec![];
@@ -377,7 +454,7 @@ fn gen_history(rng: &mut Rng, prep: &Prepared, plains: &HashMap<String, Plain>, 
     if rng.chance(1, 10) {
         ops.push(Op::Cont); // before any run: RunRuleFirst
     }
-    match rng.below(10) {
+    match if noisy { 1 + rng.below(4) } else { rng.below(10) } {
         0 => {}
         1 | 2 => push_edit(&mut ops, &mut m, Op::AddAll),
         3 => {
@@ -406,7 +483,7 @@ fn gen_history(rng: &mut Rng, prep: &Prepared, plains: &HashMap<String, Plain>, 
     m.run();
     let mut reruns = 0;
     let mut conts = 0;
-    let max_conts = 4 + rng.below(24);
+    let max_conts = if noisy { 12 + rng.below(30) } else { 4 + rng.below(24) };
     loop {
         if ops.len() > 160 {
             break;
@@ -414,14 +491,16 @@ fn gen_history(rng: &mut Rng, prep: &Prepared, plains: &HashMap<String, Plain>, 
         match m.st {
             St::Idle => unreachable!(),
             St::Running => {
-                if rng.chance(1, 5) {
+                if (noisy && rng.chance(5, 6)) || (!noisy && rng.chance(1, 25)) {
+                    ops.push(Op::Noise(*rng.pick(NOISE)));
+                } else if rng.chance(1, 5) {
                     ops.push(Op::Pause(*rng.pick(PAUSES)));
                 }
                 ops.push(Op::Recv);
                 m.next_event(&plains[&cur]);
             }
             St::Stopped => {
-                for _ in 0..rng.weighted(&[50, 30, 15, 5]) {
+                for _ in 0..rng.weighted(if noisy { &[75, 20, 5, 0] } else { &[50, 30, 15, 5] }) {
                     match rng.below(10) {
                         0..=2 => ops.push(Op::Probe(*rng.pick(PROBES))),
                         3 | 4 => ops.push(Op::Pause(*rng.pick(PAUSES))),
@@ -485,6 +564,9 @@ fn gen_history(rng: &mut Rng, prep: &Prepared, plains: &HashMap<String, Plain>, 
         guard += 1;
         match m.st {
             St::Running => {
+                if noisy && rng.chance(1, 2) {
+                    ops.push(Op::Noise(*rng.pick(NOISE)));
+                }
                 ops.push(Op::Recv);
                 m.next_event(&plains[&cur]);
             }
@@ -624,14 +706,51 @@ fn execute(case: &Case, timeout: Duration) -> ExecEnd {
                     _ => ctx.delete_all_breakpoints(),
                 }
             }
-            Op::Run(rule) => {
-                if st == St::Running {
+            Op::Noise(n) => {
+                if st != St::Running {
+                    p("c_skip", "noise".into());
+                    continue;
+                }
+                // one record before and one after: a record per command would put the log's
+                // lock and the hook's delays between the commands
+                p("c_noise_begin", n.to_string());
+                let mut listed = 0usize;
+                for _ in 0..n {
+                    listed += ctx.list_breakpoints().len();
+                    ctx.add_breakpoint(NEVER_A_RULE.to_string());
+                    ctx.delete_breakpoint(NEVER_A_RULE);
+                }
+                p("c_noise_end", format!("{}|{listed}", 3 * n));
+            }
+            Op::Run(_) | Op::RunBusy(_) => {
+                let (rule, busy) = match op {
+                    Op::Run(r) => (r, false),
+                    Op::RunBusy(r) => (r, true),
+                    _ => unreachable!(),
+                };
+                if st == St::Running && !busy {
                     p("c_skip", "run".into());
                     continue;
+                }
+                if st == St::Running {
+                    // the premise "every delivered event was received": look once more
+                    match rx.as_ref().unwrap().try_recv() {
+                        Ok(ev) => {
+                            p("c_recv_call", String::new());
+                            st = if matches!(ev, DebuggerEvent::Breakpoint(..)) { St::Stopped } else { St::Finished };
+                            p("c_recv", ev_str(&ev));
+                        }
+                        Err(TryRecvError::Empty) => {}
+                        Err(TryRecvError::Disconnected) => {
+                            p("c_recv_disc", String::new());
+                            return ExecEnd::Aborted("event channel disconnected".into());
+                        }
+                    }
                 }
                 let kind = match st {
                     St::Idle => "first",
                     St::Stopped => "mid",
+                    St::Running => "busy",
                     _ => "end",
                 };
                 // as debugger/src/main.rs: a new channel per run; the old receiver lives until
@@ -649,6 +768,36 @@ fn execute(case: &Case, timeout: Duration) -> ExecEnd {
                     // whatever the terminated session still put into its own channel
                     while let Ok(ev) = old.try_recv() {
                         p("c_old", ev_str(&ev));
+                    }
+                    // `run` has returned, so the previous parser thread is expected to be gone
+                    // (th_exit logged). If it is not, keep the OLD channel open and watch what
+                    // that thread still delivers, until it disconnects or the watch time is over.
+                    let exited = verif::log().iter().filter(|r| r.point == "th_exit").count();
+                    if s == "ok" && exited < runs_ok {
+                        let deadline = Instant::now() + Duration::from_millis(case.old_watch_ms);
+                        let how = loop {
+                            let left = deadline.saturating_duration_since(Instant::now());
+                            if left.is_zero() {
+                                break "watch_time_over";
+                            }
+                            match old.recv_timeout(left) {
+                                Ok(ev) => {
+                                    let is_bp = matches!(ev, DebuggerEvent::Breakpoint(..));
+                                    p("c_old", ev_str(&ev));
+                                    if is_bp {
+                                        // a superseded session reporting a breakpoint hit: the
+                                        // judge needs nothing more, and that thread now parks
+                                        break "breakpoint_delivered";
+                                    }
+                                }
+                                Err(RecvTimeoutError::Timeout) => break "watch_time_over",
+                                Err(RecvTimeoutError::Disconnected) => break "disconnected",
+                            }
+                        };
+                        p("c_old_watch", how.into());
+                        if how != "disconnected" {
+                            return ExecEnd::Aborted("the previous parser thread is still alive after run returned".into());
+                        }
                     }
                 }
                 if s != "ok" {
@@ -842,6 +991,9 @@ impl Judged {
     fn c(&mut self, k: &str) {
         *self.counters.entry(k.to_string()).or_insert(0) += 1;
     }
+    fn add(&mut self, k: &str, n: u64) {
+        *self.counters.entry(k.to_string()).or_insert(0) += n;
+    }
     fn v(&mut self, kind: &str, expected: Value, observed: Value) {
         if self.skip.contains(kind) {
             self.c(&format!("check_switched_off:{kind}"));
@@ -896,6 +1048,11 @@ fn judge(case: &Case, names: &[String], log: &[Rec], skip: &HashSet<String>, pla
     let mut cont_call_seq = 0u64;
     let mut in_run = false;
     let mut old_events_this_run = 0;
+    // for the noise evidence: where the parser was last resumed (run / cont) and the first
+    // bp_before_send / th_final_sent it logged after that
+    let mut resume_seq = 0u64;
+    let mut stop_after_resume: Option<u64> = None;
+    let mut noise_began_after_stop = false;
     let ill = |j: &mut Judged, what: &str| {
         if j.inconclusive.is_none() {
             j.inconclusive = Some(format!("ill-formed history / harness: {what}"));
@@ -938,9 +1095,13 @@ fn judge(case: &Case, names: &[String], log: &[Rec], skip: &HashSet<String>, pla
                 }
                 "c_run_call" => {
                     let (rule, kind) = r.info.split_once('|').unwrap_or((&r.info, "?"));
-                    if m.st == St::Running {
+                    // kind "busy": the slow-parse histories' re-run right after a cont (nothing
+                    // can have been delivered since; the executor looked once more)
+                    if m.st == St::Running && kind != "busy" {
                         ill(&mut j, "run while an event is owed");
                     }
+                    resume_seq = seq;
+                    stop_after_resume = None;
                     if !names.iter().any(|n| n == rule) {
                         ill(&mut j, "run of a rule the grammar does not define");
                     }
@@ -965,9 +1126,35 @@ fn judge(case: &Case, names: &[String], log: &[Rec], skip: &HashSet<String>, pla
                     match kind {
                         "mid" => j.c("reruns_mid_parse"),
                         "end" => j.c("reruns_after_end"),
+                        "busy" => j.c("reruns_while_parser_busy_in_one_long_rule"),
                         _ => {}
                     }
                 }
+                "c_noise_begin" => {
+                    if m.st != St::Running {
+                        ill(&mut j, "noise while no event is owed");
+                    }
+                    noise_began_after_stop = stop_after_resume.is_some();
+                }
+                "c_noise_end" => {
+                    // outcome-neutral by construction: the model's set is untouched
+                    let n: u64 = r.info.split('|').next().and_then(|x| x.parse().ok()).unwrap_or(0);
+                    j.c("noise_blocks");
+                    j.add("noise_commands_issued", n);
+                    if noise_began_after_stop {
+                        j.c("noise_blocks_begun_after_parser_reached_its_next_stop");
+                    } else if stop_after_resume.is_none() {
+                        // neither bp_before_send nor th_final_sent of the resumed parser was
+                        // logged before the block ended: every command ran next to a parser
+                        // that was on its way to the next stop
+                        j.c("noise_blocks_entirely_while_parser_on_its_way");
+                        j.add("noise_commands_while_parser_on_its_way", n);
+                    } else {
+                        j.c("noise_blocks_during_which_parser_reached_its_next_stop");
+                    }
+                    let _ = resume_seq;
+                }
+                "c_old_watch" => j.c(&format!("old_channel_watched_after_rerun:{}", r.info)),
                 "run_has_handle" => {
                     if let Some(s) = sess.last_mut() {
                         s.r_has_handle = Some(seq);
@@ -995,9 +1182,24 @@ fn judge(case: &Case, names: &[String], log: &[Rec], skip: &HashSet<String>, pla
                     if r.info == "ok" {
                         s.run_ok = true;
                         ok_sessions.push(sess.len() - 1);
-                        let s = sess.last().unwrap();
-                        if s.r_has_handle.is_some() && s.r_joined.is_none() {
-                            j.v("run_returned_without_joining_previous_session", json!("run_joined logged after run_has_handle"), json!("no run_joined"));
+                        // "starting a new run always terminates the previous one": when `run`
+                        // has returned, the previous parser thread must be gone, i.e. its th_exit
+                        // is in the log. (Behaviour, not mechanism: `run_joined` is not required.)
+                        if sess.len() >= 2 {
+                            let prev = &sess[sess.len() - 2];
+                            if prev.run_ok && prev.exit.is_none() {
+                                let later: Vec<String> = stripped
+                                    .iter()
+                                    .filter(|x| x.seq > seq && (x.point == "c_old" || x.point == "c_old_watch" || (x.thread != ctid && Some(&x.thread) == prev.thread.as_ref())))
+                                    .take(12)
+                                    .map(|x| format!("{} {} {}", x.seq, x.point, x.info))
+                                    .collect();
+                                j.v(
+                                    "previous_session_not_terminated_when_run_returned",
+                                    json!("th_exit of the previous parser thread logged before run returns"),
+                                    json!({"previous_session": sess.len() - 1, "its_last_point_before_run_returned": stripped.iter().rev().find(|x| x.seq < seq && Some(&x.thread) == prev.thread.as_ref()).map(|x| x.point), "what_it_did_afterwards": later}),
+                                );
+                            }
                         }
                     } else {
                         // "starting a new run always terminates the previous one": the new run
@@ -1060,6 +1262,10 @@ fn judge(case: &Case, names: &[String], log: &[Rec], skip: &HashSet<String>, pla
                     j.v("event_channel_disconnected", json!({"event": exp}), json!("all senders dropped without delivering it (parser thread died)"));
                 }
                 "c_cont_call" => {
+                    if m.st == St::Stopped {
+                        resume_seq = seq;
+                        stop_after_resume = None;
+                    }
                     cont_state = m.st;
                     cont_call_seq = seq;
                     if m.st == St::Running {
@@ -1164,6 +1370,9 @@ fn judge(case: &Case, names: &[String], log: &[Rec], skip: &HashSet<String>, pla
                     si
                 }
             };
+            if si + 1 == sess.len() && stop_after_resume.is_none() && seq > resume_seq && matches!(r.point, "bp_before_send" | "th_final_sent") {
+                stop_after_resume = Some(seq);
+            }
             let s = &mut sess[si];
             match r.point {
                 "bp_before_send" => {
@@ -1335,6 +1544,13 @@ fn classify_hang(log: &[Rec], timeout: Duration) -> (Option<&'static str>, Strin
         if in_run { " (inside run)" } else { "" },
         p_last.map(|r| r.point).unwrap_or("<none>")
     );
+    let busy_rerun = log.iter().rev().find(|r| r.point == "c_run_call").map(|r| split_info(&r.info).0.ends_with("|busy")).unwrap_or(false);
+    if in_run && busy_rerun {
+        // re-run right after a cont: if the old parser did reach its next stop before the stop
+        // request (the slow stretch was not slow enough), an unreceived event sits in the old
+        // channel and the premise of the statement did not hold
+        return (None, format!("{desc}; re-run was issued right after a cont (premise not verifiable)"));
+    }
     if in_run {
         // the only blocking operation inside run() is the join of the previous parser thread
         if !matches!(c_point, "run_has_handle" | "run_before_flag" | "run_after_flag" | "run_after_unpark") {
@@ -1407,7 +1623,14 @@ const HAND_GRAMMARS: &[(&str, &str, &[(&str, &str)])] = &[
         "list = { \"[\" ~ (item ~ (\",\" ~ item)*)? ~ \"]\" }\nitem = { list | leaf }\nleaf = _{ ANY }",
         &[("list", "[x,[y],[]]"), ("list", "[x,"), ("item", "q")],
     ),
+    (
+        // many rule entries between and at the stops (index 3: used by the noisy histories)
+        "chunks",
+        "a = { \"a\" }\nb = { \"b\" }\nchunk = { a* ~ b }\nlist = { chunk* }",
+        &[("list", "aabaaabababaaaabaabaaabababaaaabaabaaabababaaaab"), ("list", "abababababababababababababab"), ("list", "aaabaaabaaabaaa"), ("chunk", "aaaaaaaaaaaab")],
+    ),
 ];
+const HAND_CHUNKS: usize = 3;
 
 struct Work {
     prep: Prepared,
@@ -1494,8 +1717,13 @@ fn gen_work(rng: &mut Rng, rep: &mut Report) -> Option<Work> {
 
 /// Builds one case over a prepared grammar: picks the input and start rule, and up to two more
 /// start rules (for re-runs) that the reference also finishes on this input.
-fn make_case(rng: &mut Rng, w: &mut Work, rep: &mut Report) -> Option<(Case, HashMap<String, Plain>)> {
-    let (rule, input) = rng.pick(&w.pairs).clone();
+fn make_case(rng: &mut Rng, w: &mut Work, rep: &mut Report, noisy: bool) -> Option<(Case, HashMap<String, Plain>)> {
+    let (rule, input) = if noisy {
+        // the pair whose parse enters the most rules: many stops, many lock acquisitions
+        w.pairs.iter().max_by_key(|k| w.plains[*k].entries.len()).unwrap().clone()
+    } else {
+        rng.pick(&w.pairs).clone()
+    };
     let mut plains: HashMap<String, Plain> = HashMap::new();
     plains.insert(rule.clone(), w.plains[&(rule.clone(), input.clone())].clone());
     for _ in 0..2 {
@@ -1513,9 +1741,9 @@ fn make_case(rng: &mut Rng, w: &mut Work, rep: &mut Report) -> Option<(Case, Has
             plains.insert(r2, p);
         }
     }
-    let ops = gen_history(rng, &w.prep, &plains, &rule);
+    let ops = gen_history(rng, &w.prep, &plains, &rule, noisy);
     let delay_seed = if rng.chance(1, 10) { 0 } else { rng.next() | 1 };
-    Some((Case { grammar: w.prep.text.clone(), rule, input, ops, delay_seed, origin: w.label.clone() }, plains))
+    Some((Case { grammar: w.prep.text.clone(), rule, input, ops, delay_seed, origin: if noisy { format!("{}+noise", w.label) } else { w.label.clone() }, old_watch_ms: 300, input_spec: None }, plains))
 }
 
 fn log_json(log: &[Rec], ctid: Option<&str>) -> Value {
@@ -1557,7 +1785,9 @@ fn run_case(rep: &mut Report, stats: &mut Stats, known_keys: &HashSet<String>, c
         if let Some(p) = cache.get(rule) {
             return Some(p.clone());
         }
-        if !ref_terminates(ast, rule, &case.input) {
+        // (a case with an input_spec is one of the fixed slow-parse cases: known to terminate,
+        // and far beyond the reference interpreter's step budget by design)
+        if case.input_spec.is_none() && !ref_terminates(ast, rule, &case.input) {
             return None;
         }
         let p = plain_trace(opt, rule, &case.input).ok()?;
@@ -1613,8 +1843,14 @@ fn run_case(rep: &mut Report, stats: &mut Stats, known_keys: &HashSet<String>, c
         }
     };
     if let Some((kind, e, o)) = j.violation.take() {
+        // a violation may leave a parser thread behind (e.g. a superseded session that was
+        // not terminated): its records would end up in the next history's log
+        keep_going = false;
         let expl = if kind == "run_failed" && o.as_str().map(|x| x.contains("Previous parsing execution panic")).unwrap_or(false) { explain(true) } else { None };
         explained = report(rep, witness(&kind, e, o), expl);
+        if explained {
+            keep_going = true;
+        }
         verdict_given = true;
     }
     match &out {
@@ -1708,13 +1944,13 @@ fn canon_cases(seed: u64, rep: &mut Report) -> Vec<(Case, Work)> {
         let full = vec![
             Op::Add(r("ident")), Op::Run(r("ident_list")), Op::Recv, Op::Cont, Op::Recv, Op::Cont, Op::Recv, Op::AddAll, Op::Del(r("ident")), Op::DelAll, Op::WaitExit, Op::Cont,
         ];
-        out.push((Case { grammar: w.prep.text.clone(), rule: r("ident_list"), input: r("test test2"), ops: full, delay_seed: 0, origin: r("canon:test_full_flow") }, w));
+        out.push((Case { grammar: w.prep.text.clone(), rule: r("ident_list"), input: r("test test2"), ops: full, delay_seed: 0, origin: r("canon:test_full_flow"), old_watch_ms: 300, input_spec: None }, w));
     }
     if let Some(w) = hand_work(0, rep) {
         let restart = vec![
             Op::Add(r("ident")), Op::Run(r("ident_list")), Op::Recv, Op::Run(r("ident_list")), Op::Recv, Op::Cont, Op::Recv, Op::Cont, Op::Recv, Op::WaitExit, Op::Cont,
         ];
-        out.push((Case { grammar: w.prep.text.clone(), rule: r("ident_list"), input: r("test test2"), ops: restart, delay_seed: 0, origin: r("canon:test_restart") }, w));
+        out.push((Case { grammar: w.prep.text.clone(), rule: r("ident_list"), input: r("test test2"), ops: restart, delay_seed: 0, origin: r("canon:test_restart"), old_watch_ms: 300, input_spec: None }, w));
     }
     if let Some(w) = hand_work(0, rep) {
         // step through everything, then run again after the end
@@ -1733,17 +1969,24 @@ fn canon_cases(seed: u64, rep: &mut Report) -> Vec<(Case, Work)> {
         ops.push(Op::Recv);
         ops.push(Op::WaitExit);
         ops.push(Op::Cont);
-        out.push((Case { grammar: w.prep.text.clone(), rule: r("ident_list"), input: r("a b c"), ops, delay_seed: 0, origin: r("canon:step_all_then_rerun") }, w));
+        out.push((Case { grammar: w.prep.text.clone(), rule: r("ident_list"), input: r("a b c"), ops, delay_seed: 0, origin: r("canon:step_all_then_rerun"), old_watch_ms: 300, input_spec: None }, w));
     }
     // a few generated ones, fixed by the run seed only (not by the shard)
     let mut rng = Rng::new(seed, "c17-canon", 0);
+    // one fixed history with breakpoint commands issued while the parse is running
+    if let Some(mut w) = hand_work(HAND_CHUNKS, rep) {
+        if let Some((mut c, _)) = make_case(&mut rng, &mut w, rep, true) {
+            c.origin = r("canon:noisy_chunks");
+            out.push((c, w));
+        }
+    }
     let mut k = 0;
     let mut tries = 0;
     while k < 5 && tries < 200 {
         tries += 1;
         let w = if tries % 2 == 0 { gen_work(&mut rng, rep) } else { hand_work(1 + tries / 2, rep) };
         if let Some(mut w) = w {
-            if let Some((mut c, _)) = make_case(&mut rng, &mut w, rep) {
+            if let Some((mut c, _)) = make_case(&mut rng, &mut w, rep, false) {
                 let hits = c.ops.iter().filter(|o| matches!(o, Op::Cont)).count();
                 if hits < 3 {
                     continue;
@@ -1757,16 +2000,106 @@ fn canon_cases(seed: u64, rep: &mut Report) -> Vec<(Case, Work)> {
     out
 }
 
+/// The slow-parse cases: `r = { x ~ "a"* ~ x ~ x }` on "b" + "a"*N + "bb". The listener is only
+/// called at rule entries, so the `"a"*` stretch is one long piece of parsing during which the
+/// parser thread cannot look at the stop request. N is calibrated on this machine so that the
+/// plain VM parse takes about `target_ms` (bounded, so that a sanitizer build or a loaded machine
+/// does not blow up the input).
+struct Slow {
+    prep: Prepared,
+    input: String,
+    spec: Value,
+    plains: HashMap<String, Plain>,
+    plain_ms: u64,
+}
+
+fn build_slow(rep: &mut Report, target_ms: u64) -> Option<Slow> {
+    let prep = prepare("x = { \"b\" }\nr = { x ~ \"a\"* ~ x ~ x }\n", None)?;
+    let make = |n: usize| -> String {
+        let mut s = String::with_capacity(n + 3);
+        s.push('b');
+        for _ in 0..n {
+            s.push('a');
+        }
+        s.push_str("bb");
+        s
+    };
+    let timed = |n: usize| -> Option<(f64, Plain, String)> {
+        let input = make(n);
+        let t0 = Instant::now();
+        let p = plain_trace(&prep.opt, "r", &input).ok()?;
+        Some((t0.elapsed().as_secs_f64(), p, input))
+    };
+    let n0 = 200_000usize;
+    let d0 = timed(n0)?.0.min(timed(n0)?.0).max(1e-6);
+    const CAP: f64 = 40_000_000.0;
+    let target = target_ms as f64 / 1000.0;
+    let mut n = ((n0 as f64) * target / d0).clamp(n0 as f64, CAP) as usize;
+    let (mut d, mut p, mut input) = timed(n)?;
+    // the small measurement may have been taken while the machine was busier than it is now
+    for _ in 0..2 {
+        if d >= 0.75 * target || (n as f64) >= CAP {
+            break;
+        }
+        n = ((n as f64) * 1.1 * target / d.max(1e-6)).clamp(n0 as f64, CAP) as usize;
+        let t = timed(n)?;
+        d = t.0;
+        p = t.1;
+        input = t.2;
+    }
+    let expected: Vec<(String, usize)> = vec![("r".into(), 0), ("x".into(), 0), ("x".into(), n + 1), ("x".into(), n + 2)];
+    if p.entries != expected || p.fin != "eof" {
+        rep.count("slow_case_unusable:unexpected_plain_trace");
+        return None;
+    }
+    let px = plain_trace(&prep.opt, "x", &input).ok()?;
+    let mut plains = HashMap::new();
+    plains.insert("r".to_string(), p);
+    plains.insert("x".to_string(), px);
+    let plain_ms = (d * 1000.0) as u64;
+    rep.notes.insert("slow_parse_case".into(), json!({"a_count": n, "plain_parse_ms": plain_ms, "target_ms": target_ms}));
+    Some(Slow { prep, input, spec: json!({"prefix": "b", "repeat": "a", "times": n, "suffix": "bb"}), plains, plain_ms })
+}
+
+fn slow_case(slow: &Slow, busy: bool, delay_seed: u64) -> Case {
+    let r = |s: &str| s.to_string();
+    let ops = if busy {
+        // cont, then run again at once: nothing can have been delivered in between
+        vec![Op::Add(r("x")), Op::Run(r("r")), Op::Recv, Op::Cont, Op::RunBusy(r("x")), Op::Recv, Op::Cont, Op::Recv, Op::WaitExit, Op::Cont]
+    } else {
+        // run again while parked at x@0: the woken parser first has to cross the long stretch
+        vec![Op::Add(r("x")), Op::Run(r("r")), Op::Recv, Op::Run(r("r")), Op::Recv, Op::DelAll, Op::Cont, Op::Recv, Op::WaitExit, Op::Cont]
+    };
+    Case {
+        grammar: slow.prep.text.clone(),
+        rule: r("r"),
+        input: slow.input.clone(),
+        ops,
+        delay_seed,
+        origin: r(if busy { "slow:rerun_right_after_cont" } else { "slow:rerun_while_parked" }),
+        // the old parse needs about plain_ms to reach its next rule entry
+        old_watch_ms: slow.plain_ms * 3 + 1000,
+        input_spec: Some(slow.spec.clone()),
+    }
+}
+
 fn case_from_json(w: &Value, origin: &str) -> Option<Case> {
     let rule = w["rule"].as_str().unwrap_or("").to_string();
     let ops: Vec<Op> = w["history"].as_array()?.iter().filter_map(|o| Op::from_json(o, &rule)).collect();
+    let input_spec = if w["input_spec"].is_object() { Some(w["input_spec"].clone()) } else { None };
+    let input = match &input_spec {
+        Some(spec) => expand_input_spec(spec)?,
+        None => w["input"].as_str().unwrap_or("").to_string(),
+    };
     Some(Case {
         grammar: w["grammar"].as_str()?.to_string(),
         rule,
-        input: w["input"].as_str().unwrap_or("").to_string(),
+        input,
         ops,
         delay_seed: w["delay_seed"].as_u64().unwrap_or(0),
         origin: origin.to_string(),
+        old_watch_ms: w["old_channel_watch_ms"].as_u64().unwrap_or(300).min(60_000),
+        input_spec,
     })
 }
 
@@ -1839,10 +2172,37 @@ pub fn run(args: &Args) {
     let mut done = 0u64;
     let mut stopped = false;
     let mut canon_i = args.shard as usize;
+    // slow-parse histories (seconds each): two per shard, in the thorough tier a few more
+    let slow_target_ms: u64 = args.opt("slow-ms").and_then(|s| s.parse().ok()).unwrap_or(700);
+    let mut slow: Option<Option<Slow>> = None;
+    let mut slow_done = 0u64;
+    let slow_turn = |d: u64| d == 5 || d == 15 || (args.thorough && d % 5_000 == 2_500);
+    let mut slow_served = u64::MAX;
     'outer: while done < total {
         if rep.elapsed() > args.max_s {
             rep.notes.insert("stopped_early_at_history".into(), json!(done));
             break;
+        }
+        if slow_turn(done) && slow_served != done && slow_target_ms > 0 {
+            slow_served = done;
+            if slow.is_none() {
+                slow = Some(build_slow(&mut rep, slow_target_ms));
+            }
+            if let Some(Some(sl)) = &slow {
+                // (`--slow-busy-first 1`: trust experiments, start with the other variant)
+                let flip = if args.opt("slow-busy-first").is_some() { 1 } else { 0 };
+                // the variant that re-runs right after a cont needs a stretch that is certainly
+                // longer than the controller's reaction time
+                let busy = (slow_done + flip) % 2 == 1 && sl.plain_ms >= 300;
+                let c = slow_case(sl, busy, rng.next() | 1);
+                slow_done += 1;
+                rep.count("slow_parse_histories");
+                rep.add("slow_parse_plain_ms_total", sl.plain_ms);
+                if !run_case(&mut rep, &mut stats, &known_keys, &c, &sl.prep.names, &sl.prep.opt, &sl.prep.ast, &sl.plains, timeout) {
+                    stopped = true;
+                    break 'outer;
+                }
+            }
         }
         // one history in four is one of the fixed ones
         let canon_turn = |d: u64| !canon.is_empty() && d % 4 == 3;
@@ -1858,17 +2218,31 @@ pub fn run(args: &Args) {
             }
             continue;
         }
-        let w = if rng.chance(1, 8) { hand_work(rng.below(HAND_GRAMMARS.len()), &mut rep) } else { gen_work(&mut rng, &mut rep) };
+        // grammar: mostly generated; sometimes hand-written; sometimes the many-entries grammar
+        // with every history of the batch noisy
+        let pick = rng.below(24);
+        let all_noisy = pick == 3 || pick == 4;
+        let w = if pick < 3 {
+            hand_work(rng.below(HAND_GRAMMARS.len()), &mut rep)
+        } else if all_noisy {
+            hand_work(HAND_CHUNKS, &mut rep)
+        } else {
+            gen_work(&mut rng, &mut rep)
+        };
         let mut w = match w {
             Some(w) => w,
             None => continue,
         };
         rep.count("grammars_used");
         for _ in 0..5 {
-            if done >= total || canon_turn(done) {
+            if done >= total || canon_turn(done) || (slow_turn(done) && slow_served != done) {
                 break;
             }
-            let (case, plains) = match make_case(&mut rng, &mut w, &mut rep) {
+            let noisy = all_noisy || rng.chance(1, 5);
+            if noisy {
+                rep.count("histories_with_noise_blocks");
+            }
+            let (case, plains) = match make_case(&mut rng, &mut w, &mut rep, noisy) {
                 Some(x) => x,
                 None => break,
             };
